@@ -55,6 +55,14 @@ package plenc
 //@   # slices of pointers to fixed-width values (float pointers, at any depth of indirection) are rejected: the
 //@   # fixed-width slice wrapper reads its elements in place and is never built around pointer elements
 //@   ensures[C08] @reflect.Type.Kind(typ) == 23 && called_CodecRegistry_StoreOrSwap && call_CodecRegistry_StoreOrSwap_arg3.typ == tid("plenccodec.WTFixedSliceWrapper") ==> @reflect.Type.Kind(@reflect.Type.Elem(typ)) != 22
+//@   # the slice treatment follows the element codec's wire type, and the protobuf repeated-field form is chosen exactly
+//@   # when the instance option or the "proto" tag asks for it
+//@   ensures[C12,C02,C08] @reflect.Type.Kind(typ) == 23 && called_CodecRegistry_StoreOrSwap && call_CodecRegistry_StoreOrSwap_arg3.typ == tid("plenccodec.ProtoSliceWrapper") ==> call_Codec_WireType_r0 == 2 && (old(p.ProtoCompatibleArrays) || tag == "proto")
+//@   ensures[C12,C02,C08] @reflect.Type.Kind(typ) == 23 && called_CodecRegistry_StoreOrSwap && call_CodecRegistry_StoreOrSwap_arg3.typ == tid("plenccodec.WTLengthSliceWrapper") ==> call_Codec_WireType_r0 == 2 && !old(p.ProtoCompatibleArrays)
+//@   ensures[C12,C02,C08] @reflect.Type.Kind(typ) == 23 && called_CodecRegistry_StoreOrSwap && call_CodecRegistry_StoreOrSwap_arg3.typ == tid("plenccodec.WTLengthSliceWrapper") ==> !(tag == "proto")
+//@   ensures[C02,C08] @reflect.Type.Kind(typ) == 23 && called_CodecRegistry_StoreOrSwap && call_CodecRegistry_StoreOrSwap_arg3.typ == tid("plenccodec.WTVarIntSliceWrapper") ==> call_Codec_WireType_r0 == 0
+//@   ensures[C02,C08] @reflect.Type.Kind(typ) == 23 && called_CodecRegistry_StoreOrSwap && call_CodecRegistry_StoreOrSwap_arg3.typ == tid("plenccodec.WTFixedSliceWrapper") ==> call_Codec_WireType_r0 == 1 || call_Codec_WireType_r0 == 5
+//@   ensures[C02,C08] @reflect.Type.Kind(typ) == 23 && called_CodecRegistry_StoreOrSwap ==> call_CodecRegistry_StoreOrSwap_arg3.typ == tid("plenccodec.ProtoSliceWrapper") || call_CodecRegistry_StoreOrSwap_arg3.typ == tid("plenccodec.WTLengthSliceWrapper") || call_CodecRegistry_StoreOrSwap_arg3.typ == tid("plenccodec.WTVarIntSliceWrapper") || call_CodecRegistry_StoreOrSwap_arg3.typ == tid("plenccodec.WTFixedSliceWrapper")
 //@   # named basic kinds fall back to the codec registered on this instance for the basic type under the same tag
 //@   ensures[C17,C02,C08] old(@plenccodec.CodecRegistry.Load(registry, typ, tag)) == nil && @reflect.Type.Kind(typ) == 1 ==> (r1 == nil) == (old(@plenc.*baseRegistry.Load(p + 8, rtype(bool), tag)) != nil) && (r1 == nil ==> r0 == old(@plenc.*baseRegistry.Load(p + 8, rtype(bool), tag)))
 //@   ensures[C17,C02,C08] old(@plenccodec.CodecRegistry.Load(registry, typ, tag)) == nil && @reflect.Type.Kind(typ) == 2 ==> (r1 == nil) == (old(@plenc.*baseRegistry.Load(p + 8, rtype(int), tag)) != nil) && (r1 == nil ==> r0 == old(@plenc.*baseRegistry.Load(p + 8, rtype(int), tag)))
@@ -99,6 +107,12 @@ package plenc
 //@   safety C17
 //@   noglobals[C17]
 //@   ensures[C17] @sync.*Map.Load(p + 8, boxed(plenc.registryKey, typ, tag)).ok && @sync.*Map.Load(p + 8, boxed(plenc.registryKey, typ, tag)).value == c
+//@ func plenc.*Plenc.RegisterDefaultCodecs
+//@   safety C17 C12
+//@   noglobals[C17]
+//@   # the option selects the time codec: the protobuf Timestamp layout exactly when ProtoCompatibleTime is set
+//@   ensures[C12,C17] old(p.ProtoCompatibleTime) ==> @sync.*Map.Load(p + 8, boxed(plenc.registryKey, rtype("time.Time"), "")).value.typ == tid("plenccodec.TimeCompatCodec")
+//@   ensures[C12,C17] !old(p.ProtoCompatibleTime) ==> @sync.*Map.Load(p + 8, boxed(plenc.registryKey, rtype("time.Time"), "")).value.typ == tid("plenccodec.TimeCodec")
 //@ func plenc.*Plenc.CodecForType
 //@   safety C17
 //@   noglobals[C17]
@@ -116,7 +130,17 @@ package plenc
 //@   noglobals[C17,C06]
 //@   ensures[C06] r1 == nil ==> len(r0) >= len(data)
 //@   ensures[C06,C11] r1 == nil ==> (forall j int :: 0 <= j && j < len(data) ==> r0[j] == old(data[j]))
+//@   # by value or through a pointer: the codec is handed the address of the value. An interface holding a struct by
+//@   # value holds a pointer to a copy of it - unless the struct is pointer-shaped (directiface), when the data word is
+//@   # the struct's only field itself and the address of a copy of that word is what the codec needs
+//@   atcall plenccodec.Codec.Append [C06,C01] @reflect.Type.Kind(@reflect.TypeOf(value)) == 25 && directiface(u64(@reflect.TypeOf(value).data)) ==> loadptr(arg2) == value.data
+//@   atcall plenccodec.Codec.Append [C06,C01] @reflect.Type.Kind(@reflect.TypeOf(value)) == 25 && !directiface(u64(@reflect.TypeOf(value).data)) ==> arg2 == value.data
+//@   atcall plenccodec.Codec.Size [C06,C01] @reflect.Type.Kind(@reflect.TypeOf(value)) == 25 && directiface(u64(@reflect.TypeOf(value).data)) ==> loadptr(arg1) == value.data
+//@   atcall plenccodec.Codec.Omit [C06,C01] @reflect.Type.Kind(@reflect.TypeOf(value)) == 25 && directiface(u64(@reflect.TypeOf(value).data)) ==> loadptr(arg1) == value.data
 
 //@ func plenc.*Plenc.Unmarshal
 //@   safety C04 C17
 //@   noglobals[C17]
+//@   # the codec of the pointed-to type reads exactly the caller's bytes into the caller's variable, with its own wire type
+//@   atcall plenccodec.Codec.Read [C01,C10] arg2 == value.data && len(arg1) == len(data) && arg1.ptr == data.ptr && arg3 == call_Codec_WireType_r0
+//@   ensures[C01,C10] result == nil ==> called_Codec_Read && call_Codec_Read_r1 == nil && call_Codec_Read_arg0 == call_Plenc_CodecForType_r0 && call_Plenc_CodecForType_arg1 == @reflect.Type.Elem(@reflect.TypeOf(value))
